@@ -601,6 +601,62 @@ pub fn replay_property<P: Property>(p: P, path: &Path) -> i32 {
     }
 }
 
+// ---------------------------------------------------------------------------------------------
+// coverage-guided fuzzing: the fuzzer's bytes are the random choices of the property's own strategy
+
+thread_local! {
+    static FUZZ_STRATEGY: RefCell<Option<Box<dyn std::any::Any>>> = const { RefCell::new(None) };
+    static FUZZ_OPEN: RefCell<Option<Vec<String>>> = const { RefCell::new(None) };
+}
+
+/// Generate one case of `p` from `data` (proptest's pass-through RNG: every random choice the strategy
+/// makes reads the next bytes of `data`, zeros when exhausted) and run it. Returns the failure, if any,
+/// as (case JSON, reason).
+pub fn fuzz_one<P: Property>(p: &P, data: &[u8]) -> Option<(String, String)> {
+    use proptest::strategy::ValueTree;
+    use proptest::test_runner::{Config, RngAlgorithm, TestRng, TestRunner};
+    let open: Vec<String> = FUZZ_OPEN.with(|o| {
+        let mut o = o.borrow_mut();
+        if o.is_none() {
+            *o = Some(load_known().iter().filter(|k| k.property == p.id() && k.status == "open").map(|k| k.key.clone()).collect());
+        }
+        o.clone().unwrap()
+    });
+    let case: P::Case = FUZZ_STRATEGY.with(|st| {
+        let mut st = st.borrow_mut();
+        if st.is_none() {
+            *st = Some(Box::new(p.strategy(Tier::Thorough)));
+        }
+        let strat = st.as_ref().unwrap().downcast_ref::<BoxedStrategy<P::Case>>().expect("one property per process");
+        let rng = TestRng::from_seed(RngAlgorithm::PassThrough, data);
+        let mut runner = TestRunner::new_with_rng(Config { failure_persistence: None, ..Config::default() }, rng);
+        strat.new_tree(&mut runner).ok().map(|t| t.current())
+    })?;
+    let (r, _cx) = exec(p, &case, &open);
+    match r {
+        Ok(()) => None,
+        Err(reason) => Some((serde_json::to_string(&case).unwrap_or_default(), reason)),
+    }
+}
+
+/// Bytes that make `fuzz_one` generate ordinary random cases (recorded from the ChaCha generator): a starting corpus.
+pub fn fuzz_seed_inputs<P: Property>(p: &P, n: usize, seed: u64) -> Vec<Vec<u8>> {
+    use proptest::test_runner::{Config, RngAlgorithm, TestRng, TestRunner};
+    let strat = p.strategy(Tier::Thorough);
+    let mut out = vec![];
+    for i in 0..n {
+        let mut s = [0u8; 32];
+        s[..8].copy_from_slice(&seed.to_le_bytes());
+        s[8..16].copy_from_slice(&(i as u64).to_le_bytes());
+        let rng = TestRng::from_seed(RngAlgorithm::Recorder, &s);
+        let mut runner = TestRunner::new_with_rng(Config { failure_persistence: None, ..Config::default() }, rng);
+        if strat.new_tree(&mut runner).is_ok() {
+            out.push(runner.bytes_used());
+        }
+    }
+    out
+}
+
 #[macro_export]
 macro_rules! ensure_p {
     ($cond:expr, $($arg:tt)*) => {
